@@ -156,6 +156,21 @@ def run(ctx):
         for cfg in CONFIGS:
             g = {"tables": layout(rng, t, cfg), "queries": [dict(x, kind=f"{cfg}:{x['kind']}") for x in qs]}
             (spill_groups if cfg == "spill" else plain_groups).append((g, bi, cfg))
+    # Over Parquet a multi-key GROUP BY whose key LOOKS unique by footer statistics (range >= rows) although it has duplicates is
+    # collapsed by GroupKeyReduction: that is the recorded class ndv-decides-uniqueness / ndv-unique-key owned by C18, C04 and
+    # C03 (their checks generate and excuse it by a Coq predicate). This property is about aggregate values, so such statements
+    # are not generated for the Parquet configuration (counted below); the memory configurations keep them.
+    import importlib.util, os
+    _sp = importlib.util.spec_from_file_location("chk_C04_shared", os.path.join(os.path.dirname(os.path.abspath(__file__)), "C04.py"))
+    c04 = importlib.util.module_from_spec(_sp); _sp.loader.exec_module(c04)
+    skipped_ndv = 0
+    for g, bi, cfg in plain_groups:
+        if cfg == "parquet":
+            keep = [x for x in g["queries"] if not c04.ndv_unique_shape(x["q"], g["tables"], lambda name: True)]
+            skipped_ndv += len(g["queries"]) - len(keep)
+            g["queries"] = keep
+    plain_groups = [(g, bi, cfg) for g, bi, cfg in plain_groups if g["queries"]]
+    ctx.cov["parquet_statements_left_to_C18_C04_C03 (ndv-unique-key shape)"] = skipped_ndv
     import time
     t1 = time.time()
     res_a = relcheck.run_rel(ctx, "c21a", [g for g, _, _ in plain_groups])
